@@ -85,7 +85,7 @@ Theorem C03_psk_binds :
     (forall p d p' d', psk_pms p d = psk_pms p' d' -> p = p' /\ d = d') ->
     forall (c s : view term) (psk_c dh_c psk_s dh_s : term),
       v_pms c = psk_pms psk_c dh_c -> v_pms s = psk_pms psk_s dh_s ->
-      keys PRF pair Hh c = keys PRF pair Hh s -> psk_c = psk_s.
+      keys term PRF pair Hh c = keys term PRF pair Hh s -> psk_c = psk_s.
 Proof. exact psk_binds. Qed.
 Print Assumptions C03_psk_binds.
 
